@@ -193,6 +193,9 @@ func replayInterp(l *Loaded, rel, fn string, v Violation, o *Opts) bool {
 	}()
 	s.End()
 	for _, w := range r.Viol {
+		if o.Trace {
+			fmt.Println("  violation on replay:", w.Kind, w.Msg)
+		}
 		if w.Kind == v.Kind && w.Msg == v.Msg {
 			return true
 		}
